@@ -14,9 +14,12 @@ def run(ctx):
     behs += sc.run_family(ctx, "add-path", c, 10000 if big else 1200, sim=(500 if big else 60, 14))
     c = sc.consts("ibgp", {"ok"}, {"annAB", "wdAannB", "annC6", "wdC6"}, set(), set(), 6, sessions=1)
     behs += sc.run_family(ctx, "ibgp", c, 3000 if big else 300, design=False)
+    # add-path in the multiprotocol encoding: several NLRI of one MP_REACH_NLRI with their own identifiers (one prefix, two prefixes)
+    c = sc.consts("ap6", {"ok"}, {"apC1C2", "apC1D2", "apWdC1"}, set(), set(), 6, sessions=1)
+    behs += sc.run_family(ctx, "add-path ipv6", c, 3000 if big else 400, design=False)
     ctx.rule = ("valid UPDATEs with 1-2 NLRI per message, mixed announce/withdraw, IPv4 classic and MP_REACH/MP_UNREACH IPv6 encodings, "
                 "without add-path and with add-path (two paths of one prefix with their own identifiers, withdrawal of one identifier, "
-                "withdraw+announce in one message), in every order up to depth 7 plus random sequences; after every message the "
+                "withdraw+announce in one message; IPv6: two identifiers of one prefix and of two prefixes in one MP_REACH_NLRI), in every order up to depth 7 plus random sequences; after every message the "
                 "Adj-RIB-In (prefix, path identifier) set and the Loc-RIB of the real session must equal the model's; non-trivial = an "
                 "UPDATE with >= 2 NLRI or a withdrawal is applied")
 
